@@ -44,8 +44,12 @@ class Ref:
     # -- helpers
     def props(self, vol=None):
         if self.safe:
-            return rm.safe_propensities(self.model, self.state, self.params, self.t, vol)
-        return rm.propensities(self.model, self.state, self.params, self.t, vol, True)
+            a = rm.safe_propensities(self.model, self.state, self.params, self.t, vol)
+        else:
+            a = rm.propensities(self.model, self.state, self.params, self.t, vol, True)
+        if any(x != x for x in a):
+            raise Structure("a rate is undefined at the tracked state (outside the non-negative domain)")
+        return a
 
     def row(self):
         return [self.state[s] for s in self.model["species"]]
@@ -201,16 +205,29 @@ def _delay_draw(ref, tape, j):
     raise ValueError(d["type"])
 
 
-def sim_delay(model, grid, tape, safe=False, dt=None, queue_dt=None):
-    """DelaySSASimulator protocol: race next reaction / next grid point / next queue slot."""
+def sim_delay(model, grid, tape, safe=False, dt=None, queue_dt=None, split=None):
+    """DelaySSASimulator protocol: race next reaction / next grid point / next queue slot.
+    split=k: the run is continued at grid[k] from the first segment's final state and returned queue (the queue keeps its
+    pending content and is re-based at the new start time, as set_current_time does)."""
     ref = Ref(model, grid, safe=safe, dt=dt)
-    n = len(grid)
     R = len(model["reactions"])
-    q = RefDelayQueue(R, n, queue_dt if queue_dt is not None else grid[1] - grid[0], ref.t)
+    full = list(grid)
+    q = RefDelayQueue(R, len(full) if split is None else split + 1, queue_dt if queue_dt is not None else full[1] - full[0], ref.t)
     ref.queue = q
     ref.n_delivered = [0] * R
     ref.n_immediate_delivery = [0] * R
     ref.delays = []
+    segments = [full] if split is None else [full[:split + 1], full[split:]]
+    for si, grid in enumerate(segments):
+        if si > 0:
+            ref.t = grid[0]
+            q.nqt = ref.t + q.dt
+        _sim_delay_segment(ref, model, grid, tape, q)
+    return ref
+
+
+def _sim_delay_segment(ref, model, grid, tape, q):
+    n = len(grid)
     idx = 0
     rule_step = True
     steps = 0
@@ -273,7 +290,6 @@ def sim_delay(model, grid, tape, safe=False, dt=None, queue_dt=None):
             else:
                 rm.apply_column(ref.state, ref.cols[j][1])
                 ref.n_immediate_delivery[j] += 1
-    return ref
 
 
 class RefVolume:
